@@ -561,6 +561,17 @@ fn sched_scenario(p: SParams) -> ExecResult {
 pub fn main(args: &Args) -> i32 {
     if let Some(p) = &args.replay {
         let j = vcommon::load_replay(p);
+        if j["replay"]["scenario"].is_string() {
+            return crate::sched::replay(p, |_, j| {
+                let sp = SParams {
+                    cap: j["cap"].as_u64().unwrap_or(1) as usize,
+                    n_msgs: j["n_msgs"].as_u64().unwrap_or(3) as usize,
+                    rotation: j["rotation"].as_u64().unwrap_or(0) as usize,
+                    with_unfiltered: j["with_unfiltered"].as_bool().unwrap_or(false),
+                };
+                Some(Box::new(move || sched_scenario(sp)))
+            });
+        }
         let case = if j["replay"]["case"].is_null() { &j["replay"] } else { &j["replay"]["case"] };
         println!("replay of {case}");
         if let Some(h) = case["history"].as_array() {
